@@ -457,6 +457,77 @@ func deepPhase(held, depth int) (runs int, report []string) {
 	return runs, report
 }
 
+// ---------------------------------------------------------------------------------------------------
+// Shared file set: the files of a "project" are registered in ONE parsley.FileSet; N goroutines parse one file each
+// (own text.File, own Reader, own Context — the context refers to the shared file set) at the same moment, every second
+// file does not parse, so Parse goes through FileSet.ErrorWithPosition -> FileSet.Position -> File.Position.  Every
+// result (error text with file:line:col) must equal the result of the same run executed alone with a file set of its
+// own kind; anything FileSet.Position remembers between lookups is shared mutable state between the runs.
+func projectFiles(n int) ([]*text.File, *parsley.FileSet) {
+	files := make([]*text.File, n)
+	pf := make([]parsley.File, n)
+	for i := range files {
+		prefix := strings.Repeat("\n", i%5) + strings.Repeat(" ", i%7)
+		body := fmt.Sprintf(`{"file": %d, "k": [1, 2, 3]}`, i)
+		if i%2 == 1 {
+			body = fmt.Sprintf(`{"file": %d, "k": [1, 2 x]}`, i)
+		}
+		files[i] = text.NewFile(fmt.Sprintf("file%d.json", i), []byte(prefix+body))
+		pf[i] = files[i]
+	}
+	return files, parsley.NewFileSet(pf...)
+}
+
+func runInFileSet(g *grammar, fs *parsley.FileSet, f *text.File) (out string) {
+	defer func() {
+		if r := recover(); r != nil {
+			out = fmt.Sprintf("panic: %v", r)
+		}
+	}()
+	ctx := parsley.NewContext(fs, text.NewReader(f))
+	v, err := parsley.Evaluate(ctx, g.p)
+	if err != nil {
+		return fmt.Sprintf("error: %v | calls=%d", err, ctx.CallCount())
+	}
+	return fmt.Sprintf("value: %#v | calls=%d", v, ctx.CallCount())
+}
+
+func fileSetPhase(g *grammar, n, rounds int) (runs int, report []string) {
+	soloFiles, soloSet := projectFiles(n)
+	want := make([]string, n)
+	for i := n - 1; i >= 0; i-- { // alone, one after the other
+		want[i] = runInFileSet(g, soloSet, soloFiles[i])
+	}
+	files, set := projectFiles(n)
+	b := &barrier{parties: int32(n)}
+	got := make([][]string, n)
+	var wg sync.WaitGroup
+	for w := 0; w < n; w++ {
+		wg.Add(1)
+		go func(w int) {
+			defer wg.Done()
+			for r := 0; r < rounds; r++ {
+				if r%25 == 0 {
+					b.wait()
+				}
+				if res := runInFileSet(g, set, files[w]); res != want[w] && len(got[w]) < 2 {
+					got[w] = append(got[w], fmt.Sprintf("round %d: %s", r, res))
+				}
+			}
+		}(w)
+	}
+	wg.Wait()
+	runs = n * rounds
+	for w := range got {
+		for _, m := range got[w] {
+			if len(report) < 4 {
+				report = append(report, fmt.Sprintf("%d goroutines share one FileSet holding %d files, each parses its own file (own File, Reader, Context), every second file fails: %s gives in %s; executed alone the same run gives %s", n, n, files[w].Position(0).String(), m, want[w]))
+			}
+		}
+	}
+	return runs, report
+}
+
 type mismatch struct {
 	Grammar, Input, Solo, Concurrent, Role string
 }
@@ -472,6 +543,7 @@ func main() {
 	cseconds := flag.Float64("construct-seconds", 3, "time budget of the construction validation phase (0 = skip)")
 	deepDepth := flag.Int("deep", 300, "nesting depth of the held deep-nesting phase (0 = skip)")
 	deepG := flag.Int("deep-goroutines", 64, "goroutines held in the middle of their parse in the deep-nesting phase")
+	fsRounds := flag.Int("fileset-rounds", 150, "rounds of the shared-file-set phase (0 = skip)")
 	cbuilders := flag.Int("builders", 16, "goroutines constructing rules at the same moment in the construction validation phase")
 	flag.Parse()
 
@@ -574,6 +646,20 @@ func main() {
 		}
 		if len(rep) > 0 {
 			out, _ := json.Marshal(map[string]interface{}{"runs": runs, "mismatches": mism, "first_mismatch": first.Load(), "deep_nesting_report": rep, "construction": cres})
+			fmt.Println(string(out))
+			os.Exit(4)
+		}
+	}
+	if *fsRounds > 0 {
+		n, rep := fileSetPhase(&grammar{name: "json", p: combinator.Sentence(text.Trim(pjson.NewParser())), eval: true}, 16, *fsRounds)
+		runs += int64(n)
+		for _, m := range rep {
+			if atomic.AddInt64(&mism, 1) == 1 {
+				first.Store(mismatch{"json (shared FileSet phase)", "16 files in one parsley.FileSet, odd files do not parse", "", m, "parse with a shared FileSet"})
+			}
+		}
+		if len(rep) > 0 {
+			out, _ := json.Marshal(map[string]interface{}{"runs": runs, "mismatches": mism, "first_mismatch": first.Load(), "shared_fileset_report": rep, "construction": cres})
 			fmt.Println(string(out))
 			os.Exit(4)
 		}
